@@ -193,8 +193,19 @@ def run(ctx):
     ctx.require("R19.new", nnew, 2, "creation paths")
     ctx.require("R19.open", nopen, 4, "connect(dbfile) sites on paths")
     # R19.wrap
-    fi = repo.require_function("database", "_open_db_connection")
     mod = repo.modules["database"]
+    # the opener: the database.py function that calls sqlite3.connect; the
+    # integrity check: the function(s) executing the foreign-key PRAGMAs
+    openers = [f for f in mod.functions.values()
+               if any(isinstance(n, ast.Call) and dotted(n.func) == "sqlite3.connect"
+                      for n in ast.walk(f.node))]
+    if len(openers) != 1:
+        raise AnalysisError("R19.wrap: expected exactly one function of database.py "
+                            "calling sqlite3.connect, found %s" % [f.name for f in openers])
+    fi = openers[0]
+    checkers = set(f.name for f in mod.functions.values()
+                   if any(isinstance(n, ast.Constant) and isinstance(n.value, str) and
+                          "foreign_key_check" in n.value.lower() for n in ast.walk(f.node)))
     ok = False
     why = "no try block maps database errors to DBError around connect()"
     for node in ast.walk(fi.node):
@@ -203,7 +214,7 @@ def run(ctx):
                           if isinstance(n, ast.Call)]
             if "sqlite3.connect" not in body_calls:
                 continue
-            checks = "_initialize_db_connection" in body_calls
+            checks = bool(checkers & set(body_calls)) or fi.name in checkers
             for h in node.handlers:
                 names = []
                 if isinstance(h.type, ast.Tuple):
@@ -222,7 +233,7 @@ def run(ctx):
                     why = "the integrity check runs outside the error-mapping handler"
                 else:
                     why = "handler catches %s" % names
-    ctx.ob("R19.wrap", "_open_db_connection maps database/OS errors to DBError", ok,
+    ctx.ob("R19.wrap", "the function that opens connections maps database/OS errors to DBError", ok,
            "%s:%d" % (mod.path, fi.node.lineno), "" if ok else why)
     # the connect events really are under that handler
     for en in model.DB_ENTRIES[:1]:
